@@ -1,5 +1,113 @@
-(* C17 — placeholder; the theorems are added as BT/*Proofs.v land *)
-From Coq Require Import List NArith ZArith Bool.
-From Emu.BT Require Import Types Mutate Server.
-Example C17_model_runs : snd (step nil (mkCall (BGetTable nil) 0%Z nil)) = fail cNotFound.
-Proof. reflexivity. Qed.
+(* C17 — Bigtable: the storage engine is unobservable.
+   The model has ONE representation of the row store for all engines: [t_rows], an association
+   list in strictly ascending key order ([asorted]); agreement of the three real engines with it
+   is checked dynamically.  Here: the ordered-map laws of that representation which the
+   handlers rely on.  Only statements; proofs are in BT/ScanProofs.v (section OrderedMap),
+   BT/AdminProofs.v and Common/StrProofs.v. *)
+From Coq Require Import List NArith ZArith Bool Sorting.
+Import ListNotations.
+From Emu.Common Require Import Bytes Str StrProofs.
+From Emu.BT Require Import Types Mutate Filter RowSet Server ScanProofs AdminProofs.
+Local Open Scope Z_scope.
+
+Definition rowstore := list (bytes * list family).
+
+(* ---- get after put / delete ---- *)
+Theorem C17_get_put_same : forall k v (rows : rowstore), alookup k (ainsert k v rows) = Some v.
+Proof. exact omap_get_put_same. Qed.
+Print Assumptions C17_get_put_same.
+
+Theorem C17_get_put_other : forall k k' v (rows : rowstore), k' <> k -> alookup k' (ainsert k v rows) = alookup k' rows.
+Proof. exact omap_get_put_other. Qed.
+Print Assumptions C17_get_put_other.
+
+Theorem C17_get_delete_same : forall k (rows : rowstore), asorted rows -> alookup k (aremove k rows) = None.
+Proof. exact omap_get_delete_same. Qed.
+Print Assumptions C17_get_delete_same.
+
+Theorem C17_get_delete_other : forall k k' (rows : rowstore), k' <> k -> alookup k' (aremove k rows) = alookup k' rows.
+Proof. exact omap_get_delete_other. Qed.
+Print Assumptions C17_get_delete_other.
+
+(* ---- the handlers' write path keeps the order, and reads see the write ---- *)
+Theorem C17_update_row_sorted : forall t k fs, asorted (t_rows t) -> asorted (t_rows (update_row t k fs)).
+Proof. exact update_row_sorted. Qed.
+Print Assumptions C17_update_row_sorted.
+
+Theorem C17_get_row_update : forall t k fs k', asorted (t_rows t) ->
+  get_row (update_row t k fs) k' = if beqb k' k then scrub_fams (t_fams t) fs else get_row t k'.
+Proof. exact get_row_update. Qed.
+Print Assumptions C17_get_row_update.
+
+(* every reachable server keeps all its stores (and the table map itself) in order *)
+Theorem C17_reachable_sorted : forall cs n t, alookup n (fst (run [] cs)) = Some t -> asorted (t_rows t).
+Proof. exact reachable_rows_sorted. Qed.
+Print Assumptions C17_reachable_sorted.
+
+(* ---- iteration ---- *)
+(* full iteration = strictly ascending keys, no duplicates *)
+Theorem C17_iter_order : forall rows : rowstore,
+  asorted rows -> StronglySorted lex_lt (map fst rows) /\ NoDup (map fst rows).
+Proof. exact omap_iter_order. Qed.
+Print Assumptions C17_iter_order.
+
+(* the iteration order is a function of the contents alone: two ordered stores with the same
+   lookups are the same list (no trace of insertion order, deletions, engine) *)
+Theorem C17_store_ext : forall rows1 rows2 : rowstore, asorted rows1 -> asorted rows2 ->
+  (forall k, alookup k rows1 = alookup k rows2) -> rows1 = rows2.
+Proof. exact omap_ext. Qed.
+Print Assumptions C17_store_ext.
+
+(* range iteration (AscendRange / AscendGreaterOrEqual / AscendLessThan / Ascend, as scan_all
+   uses it): an ascending sub-list with exactly the entries of the range *)
+Theorem C17_range_iter : forall sr (rows : rowstore), asorted rows ->
+  let it := filter (fun p => in_srange_b sr (fst p)) rows in
+  asorted it /\ subseq it rows /\ forall kv, In kv it <-> In kv rows /\ in_srange sr (fst kv).
+Proof. exact omap_range_iter. Qed.
+Print Assumptions C17_range_iter.
+
+(* prefix walk (DropRowRange): keys with prefix p form one contiguous block starting at the
+   first key >= p *)
+Theorem C17_prefix_block : forall p k1 k2,
+  (has_prefix k2 p = true -> lex_le p k2)
+  /\ (lex_le p k1 -> lex_lt k1 k2 -> has_prefix k2 p = true -> has_prefix k1 p = true).
+Proof. exact prefix_block. Qed.
+Print Assumptions C17_prefix_block.
+
+(* ---- early stop is respected: the iterator callback's "stop" ends the scan ---- *)
+(* a scan with limit n > 0 returns the first n rows of the unlimited scan (any filter, coins) *)
+Theorem C17_early_stop : forall t f limit limit0 srs coins, 0 < limit -> limit0 <= 0 ->
+  scan_all t f limit srs 0 coins [] = firstn (Z.to_nat limit) (scan_all t f limit0 srs 0 coins []).
+Proof. exact limit_first_n. Qed.
+Print Assumptions C17_early_stop.
+
+(* the whole read = one pass over the iteration of the ranges, cut at the limit *)
+Theorem C17_scan_is_one_pass : forall t f limit srs coins,
+  scan_all t f limit srs 0 coins [] = limit_cut limit (fst (visit_all t f (ranges_rows t srs) coins)).
+Proof. exact scan_all_spec. Qed.
+Print Assumptions C17_scan_is_one_pass.
+
+(* ---- non-vacuity ---- *)
+Definition C17_fs (v : N) : list family := [mkFam [102%N] [mkCol [113%N] [mkCell 0 [v] []]]].
+Definition C17_tf : list (bytes * option gcrule) := [([102%N], None)].
+(* the same contents reached by two different histories *)
+Definition C17_t1 : table :=
+  update_row (update_row (update_row (mkTable C17_tf []) [98%N] (C17_fs 1)) [97%N] (C17_fs 2)) [97; 0]%N (C17_fs 3).
+Definition C17_t2 : table :=
+  update_row (update_row (update_row (update_row (update_row (mkTable C17_tf [])
+    [97; 0]%N (C17_fs 3)) [99%N] (C17_fs 9)) [97%N] (C17_fs 2)) [99%N] []) [98%N] (C17_fs 1).
+
+Example C17_histories_agree :
+  t_rows C17_t1 = t_rows C17_t2 /\ map fst (t_rows C17_t1) = [[97]; [97; 0]; [98]]%N
+  /\ asorted (t_rows C17_t1).
+Proof.
+  split; [vm_compute; reflexivity|]. split; [vm_compute; reflexivity|].
+  repeat apply update_row_sorted. constructor.
+Qed.
+
+Example C17_range_and_stop :
+  map fst (filter (fun p => in_srange_b {| rs := [97; 0]%N; re := [] |} (fst p)) (t_rows C17_t1)) = [[97; 0]; [98]]%N
+  /\ map row_key (scan_all C17_t1 None 2 [ {| rs := []; re := [] |} ] 0 [] []) = [[97]; [97; 0]]%N
+  /\ map row_key (scan_all C17_t1 (Some (FSample true)) 1 [ {| rs := []; re := [] |} ] 0 [false; true; true] [])
+     = [[97; 0]]%N.
+Proof. vm_compute. repeat split. Qed.
